@@ -1,4 +1,5 @@
 #!/bin/bash
+export VERIF_EVIDENCE_DIR=/verif/.cache/seed-evidence
 # quick tier under other seeds: any rc!=0 on the unchanged tree is a false alarm or a new finding to triage
 cd /verif
 OUT=/verif/.cache/seed_sweep.log
